@@ -22,6 +22,7 @@ func init() {
 	extHandlers = map[string]extHandler{
 		"strings.HasPrefix":             extHasPrefix,
 		"strings.HasSuffix":             extHasSuffix,
+		"strings.TrimSuffix":            extTrimSuffix,
 		"strings.Index":                 extIndex,
 		"strings.LastIndex":             extLastIndex,
 		"strings.Count":                 extCount,
@@ -56,6 +57,10 @@ func init() {
 func (fr *frame) external(st *state, f *ssa.Function, c *ssa.CallCommon, pos token.Pos, args []string) []string {
 	fc := fr.fc
 	name := f.String()
+	if name == "(*regexp.Regexp).Longest" && len(c.Args) > 0 {
+		// (the one method of *regexp.Regexp that modifies its receiver)
+		fr.globalDerivedWrite(st, c.Args[0], pos, "Longest()")
+	}
 	if h, ok := extHandlers[name]; ok {
 		fc.used["ext:"+name] = true
 		return h(fr, st, c, args, pos)
@@ -121,15 +126,32 @@ func extHasPrefix(fr *frame, st *state, c *ssa.CallCommon, args []string, pos to
 	return []string{r}
 }
 
+func hasSuffixTerm(s, lit string) string {
+	parts := []string{fmt.Sprintf("(>= (slen %s) %d)", s, len(lit))}
+	for i := 0; i < len(lit); i++ {
+		parts = append(parts, fmt.Sprintf("(= (sat %s (+ (- (slen %s) %d) %d)) %d)", s, s, len(lit), i, lit[i]))
+	}
+	return and(parts...)
+}
+
+// strings.TrimSuffix(s, "lit"): s without the suffix when it has it, s otherwise.
+func extTrimSuffix(fr *frame, st *state, c *ssa.CallCommon, args []string, pos token.Pos) []string {
+	sc := fr.fc.sc
+	s := args[0]
+	lit, ok := litOf(c.Args[1])
+	if !ok {
+		r := sc.declare("trimmed", "Str")
+		sc.assume(fmt.Sprintf("(and (<= 0 (slo %s)) (<= (slo %s) (shi %s)) (<= (slen %s) (slen %s)))", r, r, r, r, s))
+		return []string{r}
+	}
+	return []string{sc.define("trimmed", "Str", fmt.Sprintf("(ite %s (mkstr (sbase %s) (slo %s) (- (shi %s) %d)) %s)", hasSuffixTerm(s, lit), s, s, s, len(lit), s))}
+}
+
 func extHasSuffix(fr *frame, st *state, c *ssa.CallCommon, args []string, pos token.Pos) []string {
 	sc := fr.fc.sc
 	s := args[0]
 	if lit, ok := litOf(c.Args[1]); ok {
-		parts := []string{fmt.Sprintf("(>= (slen %s) %d)", s, len(lit))}
-		for i := 0; i < len(lit); i++ {
-			parts = append(parts, fmt.Sprintf("(= (sat %s (+ (- (slen %s) %d) %d)) %d)", s, s, len(lit), i, lit[i]))
-		}
-		return []string{sc.define("hassuffix", "Bool", and(parts...))}
+		return []string{sc.define("hassuffix", "Bool", hasSuffixTerm(s, lit))}
 	}
 	fr.fc.e.u.global("(declare-fun str_hassuffix (Int Int) Bool)")
 	r := sc.define("hassuffix", "Bool", app("str_hassuffix", app("skey", args[0]), app("skey", args[1])))
@@ -141,8 +163,16 @@ func extHasSuffix(fr *frame, st *state, c *ssa.CallCommon, args []string, pos to
 func extIndex(fr *frame, st *state, c *ssa.CallCommon, args []string, pos token.Pos) []string {
 	sc := fr.fc.sc
 	s, sep := args[0], args[1]
-	r := sc.declare("index", "Int")
-	sc.assume(fmt.Sprintf("(and (>= %s (- 1)) (<= (+ %s (slen %s)) (slen %s)))", r, r, sep, s))
+	var r string
+	if lit, ok := litOf(c.Args[1]); ok && len(lit) > 0 {
+		// a function of the string (so that Index and Contains on the same text agree)
+		fn := "str_index_" + sanitize(fr.fc.e.u.lit(lit))
+		fr.fc.e.u.global(fmt.Sprintf("(declare-fun %s (Str) Int)", fn))
+		r = sc.define("index", "Int", app(fn, s))
+	} else {
+		r = sc.declare("index", "Int")
+	}
+	sc.assume(fmt.Sprintf("(and (>= %s (- 1)) (=> (>= %s 0) (<= (+ %s (slen %s)) (slen %s))))", r, r, r, sep, s))
 	if lit, ok := litOf(c.Args[1]); ok && len(lit) > 0 {
 		at := func(i string) string {
 			var parts []string
@@ -166,11 +196,16 @@ func extLastIndex(fr *frame, st *state, c *ssa.CallCommon, args []string, pos to
 	sc := fr.fc.sc
 	s, sep := args[0], args[1]
 	r := sc.declare("lastindex", "Int")
-	sc.assume(fmt.Sprintf("(and (>= %s (- 1)) (<= (+ %s (slen %s)) (slen %s)))", r, r, sep, s))
+	sc.assume(fmt.Sprintf("(and (>= %s (- 1)) (=> (>= %s 0) (<= (+ %s (slen %s)) (slen %s))))", r, r, r, sep, s))
 	if lit, ok := litOf(c.Args[1]); ok && len(lit) == 1 {
 		sc.assume(fmt.Sprintf("(=> (>= %s 0) (= (sat %s %s) %d))", r, s, r, lit[0]))
 		j := sc.fresh("j")
 		sc.assume(fmt.Sprintf("(forall ((%s Int)) (! (=> (and (< %s %s) (< %s (slen %s)) (<= 0 %s)) (not (= (sat %s %s) %d))) :pattern ((sat %s %s))))", j, r, j, j, s, j, s, j, lit[0], s, j))
+		// ground instances for the last positions of the string (extensions, suffixes)
+		for k := 1; k <= 8; k++ {
+			sc.assume(fmt.Sprintf("(=> (and (<= 0 (- (slen %s) %d)) (> (- (slen %s) %d) %s)) (not (= (sat %s (- (slen %s) %d)) %d)))", s, k, s, k, r, s, s, k, lit[0]))
+		}
+		sc.assume(fmt.Sprintf("(=> (< %s 0) (forall ((%s Int)) (! (=> (and (<= 0 %s) (< %s (slen %s))) (not (= (sat %s %s) %d))) :pattern ((sat %s %s)))))", r, j+"b", j+"b", j+"b", s, s, j+"b", lit[0], s, j+"b"))
 		if lit == "\n" {
 			// ground consequences of the definitions of nlcum / lstartraw
 			fr.fc.e.u.declareCounting()
@@ -201,7 +236,16 @@ func extCount(fr *frame, st *state, c *ssa.CallCommon, args []string, pos token.
 
 func extContains(fr *frame, st *state, c *ssa.CallCommon, args []string, pos token.Pos) []string {
 	sc := fr.fc.sc
-	r := sc.declare("contains", "Bool")
+	var r string
+	if lit, ok := litOf(c.Args[1]); ok && len(lit) > 0 {
+		// Contains(s, lit) == (Index(s, lit) >= 0): the same function of the string
+		fn := "str_index_" + sanitize(fr.fc.e.u.lit(lit))
+		fr.fc.e.u.global(fmt.Sprintf("(declare-fun %s (Str) Int)", fn))
+		r = sc.define("contains", "Bool", fmt.Sprintf("(>= (%s %s) 0)", fn, args[0]))
+		sc.assume(fmt.Sprintf("(>= (%s %s) (- 1))", fn, args[0]))
+	} else {
+		r = sc.declare("contains", "Bool")
+	}
 	sc.assume(fmt.Sprintf("(=> %s (>= (slen %s) (slen %s)))", r, args[0], args[1]))
 	return []string{r}
 }
